@@ -164,8 +164,11 @@ func (x *exec) monitorAccess(st *pstate, l *Loc, in ssa.Instruction, write bool)
 }
 
 func (x *exec) monitorCovers(l *Loc) *smt.Term {
-	if x.monitor != nil {
-		return smt.True // shared monitor state is not part of a method's frame
+	if x.monitor != nil && !x.monitor.holdsLock {
+		// a method that takes the lock itself: the shared state is re-read by everybody after Lock,
+		// so it is not part of the method's frame. Helpers that run with the lock held (holdslock)
+		// are called in the middle of a critical section and must declare what they assign.
+		return smt.True
 	}
 	return nil
 }
@@ -200,11 +203,46 @@ func (x *exec) monitorCallPre(st *pstate, c *Contract, ci callInfo, args []Val, 
 	}
 }
 
+// relock: the lock has just been (re)acquired: other goroutines may have changed everything that
+// is shared, and all that is known is what the monitor invariants say.
+func (x *exec) relock(st *pstate) {
+	cur := x.env.Next(st.heap)
+	alloc := x.env.heapVar(st.heap, "allocated", BV64) // this goroutine's own allocation counter is not shared
+	x.env.havocAll(st.heap)
+	st.heap["allocated"] = alloc
+	nv := x.env.Fresh("next$lock", smt.Int)
+	st.heap["next"] = nv
+	st.assume(smt.IGe(nv, cur), "allocation only grows")
+	st.held["mu"] = true
+	sc := x.monitorScope(st)
+	for _, inv := range x.monitor.invs {
+		ev := x.evalAt(st, sc)
+		st.assume(inv.eval(ev), "monitor invariant "+inv.label)
+	}
+}
+
 func (x *exec) monitorCallPost(st *pstate, c *Contract, ci callInfo, args []Val, in ssa.Instruction) {}
 
 func (x *exec) monitorSpecial(st *pstate, key string, callee *ssa.Function, cc *ssa.CallCommon, args []Val, in ssa.Instruction) (Val, bool, bool) {
 	switch key {
 	case "sync.(*Mutex).Lock", "sync.(*Mutex).Unlock":
+	case "sync.(*Cond).Signal", "sync.(*Cond).Broadcast":
+		return nil, true, false // waking other goroutines does not change the modelled state
+	case "sync.(*Cond).Wait":
+		// Wait = Unlock; block; Lock: the invariants are due before, and all that is known after
+		if x.monitor == nil {
+			unsupp("sync.Cond.Wait outside of a monitor")
+		}
+		if !st.held["mu"] {
+			x.emit(st, x.ord[in]+".held", "monitor", smt.False, in.Pos(), "Cond.Wait without holding the lock")
+		}
+		sc := x.monitorScope(st)
+		for _, inv := range x.monitor.invs {
+			ev := x.evalAt(st, sc)
+			x.emit(st, x.ord[in]+".wait."+inv.label, "monitor", inv.eval(ev), in.Pos(), "monitor invariant holds when Cond.Wait releases the lock: "+inv.text)
+		}
+		x.relock(st)
+		return nil, true, false
 	default:
 		return nil, false, false
 	}
@@ -217,20 +255,8 @@ func (x *exec) monitorSpecial(st *pstate, key string, callee *ssa.Function, cc *
 		if st.held["mu"] {
 			x.emit(st, x.ord[in]+".notheld", "monitor", smt.False, in.Pos(), "Lock while already holding the lock")
 		}
-		// other goroutines may have changed everything that is shared
-		cur := x.env.Next(st.heap)
-		alloc := x.env.heapVar(st.heap, "allocated", BV64) // this goroutine's own allocation counter is not shared
-		x.env.havocAll(st.heap)
-		st.heap["allocated"] = alloc
-		nv := x.env.Fresh("next$lock", smt.Int)
-		st.heap["next"] = nv
-		st.assume(smt.IGe(nv, cur), "allocation only grows")
-		st.held["mu"] = true
+		x.relock(st)
 		sc := x.monitorScope(st)
-		for _, inv := range m.invs {
-			ev := x.evalAt(st, sc)
-			st.assume(inv.eval(ev), "monitor invariant "+inv.label)
-		}
 		for _, lr := range x.c.C.LockRequires {
 			ev := x.evalAt(st, sc)
 			ev.Pos = lr.Pos
